@@ -127,7 +127,7 @@ def has_class_cycle(fam) -> bool:
     return any(i in reach(i) for i in range(n))
 
 
-def classify(fam, op, got, exp, got_aux, exp_aux, got_snap, exp_snap) -> dict:
+def classify(fam, op, got, exp, got_aux, exp_aux, got_snap, exp_snap, src="") -> dict:
     """signature of a difference between the family under test (`got`) and the fresh eager twin (`exp`).
     kind is one of the known-finding kinds only when the precise predicate of that finding holds on the
     side that failed; otherwise 'history-dependence' (= a violation)."""
@@ -136,6 +136,10 @@ def classify(fam, op, got, exp, got_aux, exp_aux, got_snap, exp_snap) -> dict:
         other = exp if side == "family" else got
         if out[0] != "EXC" or out == other:
             continue
+        if out[1] == "RecursionError" and "Discriminator(" in src and re.search(r"\.from_(?!dict\()\w+\(", op):
+            # the registry of discriminated subtypes is shared by all formats: once another format filled it,
+            # Sub.__mashumaro_from_dict_<fmt>__ resolves through the MRO to the base class' dispatcher
+            return {**sig, "kind": "discriminator-registry-shared-across-formats", "side": side}
         if out[1] == "RecursionError":
             if aux.get("rec") == "redispatch" and has_spec_stub(snap):
                 # the stub installed for a specialised method G.__mashumaro_*_<md5>__ rebuilds the
@@ -174,7 +178,7 @@ def run_history(case, upto=None, collect=None):
                 collect.append(snap)
             sig = None
             if got != exp:
-                sig = classify(fam, op, got, exp, gaux, eaux, snap, esnap)
+                sig = classify(fam, op, got, exp, gaux, eaux, snap, esnap, case["src"])
             res.append((k, op, got, exp, sig))
             if gaux.get("rec"):
                 case.setdefault("rec", {})[k] = gaux["rec"]
@@ -236,6 +240,81 @@ def oracle_histories(ctx: vlib.Ctx, n: int, keep_cases=None):
         if res:
             ctx.sample({"mode": case["mode"], "classes": [c["name"] + ":" + c["kind"] + ":" + "+".join(c["mixins"]) for c in fam["classes"]],
                         "op": res[0][1][:160], "outcome": short(res[0][2], 160)})
+
+
+# ---------------------------------------------------------------------------
+# oracle 1b: fixed scenarios (hand-written histories around the mechanisms of the property)
+# ---------------------------------------------------------------------------
+
+SCEN_HEADER = F.HEADER + """from mashumaro.types import Discriminator
+from mashumaro.config import TO_DICT_ADD_BY_ALIAS_FLAG, ADD_SERIALIZATION_CONTEXT
+import msgpack
+"""
+
+SCENARIOS = [
+    ("lazy+dialect (D5)", """
+@dataclass
+class A(DataClassMessagePackMixin):
+    x: Optional[int] = None
+    y: int = 1
+    class Config(BaseConfig):
+        lazy_compilation = True
+        code_generation_options = [ADD_DIALECT_SUPPORT]
+""", ["A(y=2).to_dict(dialect=D1)", "A.from_dict({'y': 1003}, dialect=D2)", "A(y=2).to_msgpack(dialect=D2)", "A(y=2).to_dict()"]),
+    ("lazy+flags on the first call", """
+@dataclass
+class A(DataClassDictMixin):
+    x: Optional[int] = None
+    y: int = field(default=1, metadata={"alias": "yy"})
+    class Config(BaseConfig):
+        lazy_compilation = True
+        code_generation_options = [TO_DICT_ADD_OMIT_NONE_FLAG, TO_DICT_ADD_BY_ALIAS_FLAG, ADD_SERIALIZATION_CONTEXT]
+""", ["A().to_dict(omit_none=True, by_alias=True, context={'k': 1})", "A().to_dict()", "A.from_dict({'yy': 5})"]),
+    ("postponed + subclass + formats in both orders", """
+@dataclass
+class A(DataClassMessagePackMixin, DataClassORJSONMixin):
+    b: Optional[B] = None
+    bs: List[B] = field(default_factory=list)
+@dataclass
+class B(A):
+    z: int = 0
+""", ["B(z=1, b=B(z=2)).to_jsonb()", "A(bs=[B(z=3)]).to_msgpack()", "A.from_json(b'{\"b\": {\"z\": 4}}')",
+      "B.from_msgpack(msgpack.packb({'z': 5, 'bs': [{'z': 6}]}))", "A(b=B()).to_dict()"]),
+    ("discriminated hierarchy, two formats", """
+@dataclass
+class Base(DataClassMessagePackMixin):
+    x: int
+    class Config(BaseConfig):
+        discriminator = Discriminator(field="kind", include_subtypes=True)
+@dataclass
+class Sub(Base):
+    kind = "sub"
+@dataclass
+class Holder(DataClassMessagePackMixin):
+    b: Base
+""", ["Holder.from_dict({'b': {'x': 1, 'kind': 'sub'}})", "Holder.from_msgpack(msgpack.packb({'b': {'x': 1, 'kind': 'sub'}}))"]),
+]
+
+
+def oracle_scenarios(ctx: vlib.Ctx):
+    for name, body, ops in SCENARIOS:
+        src = SCEN_HEADER + body
+        twin_src = src.replace("lazy_compilation = True", "lazy_compilation = False")
+        orders = [list(ops), list(reversed(ops))]
+        perm = list(ops)
+        ctx.rng.shuffle(perm)
+        orders.append(perm)
+        for order in orders:
+            case = {"fam": {"classes": []}, "src": src, "twin_src": twin_src, "ops": order}
+            res = run_history(case)
+            ctx.hist("scenarios", name)
+            for k, op, got, exp, sig in res:
+                ctx.count(("scenario", name, tuple(order), k))
+                if sig is not None:
+                    ctx.fail(f"scenario {name}: op #{k} `{op[:120]}` gives {short(got, 160)} but a fresh eager twin gives {short(exp, 160)}",
+                             {"entry": "history", "mode": "scenario:" + name, "family": case["fam"], "source": src,
+                              "twin_source": twin_src, "ops": order[:k + 1], "failing_op": k, "observed": got, "expected": exp},
+                             sig)
 
 
 # ---------------------------------------------------------------------------
@@ -327,6 +406,7 @@ def run(ctx: vlib.Ctx):
         cases = []
         oracle_histories(ctx, ctx.budget(220, 2500), keep_cases=cases)
         c14_coq.correspondence(ctx, cases)
+        oracle_scenarios(ctx)
         oracle_threads(ctx, ctx.budget(25, 200), ctx.budget(6, 12))
     finally:
         sys.setrecursionlimit(old)
